@@ -57,6 +57,7 @@ impl<Effect, Event> CommandContext<Effect, Event> {
         let (output_sender, output_receiver) = mpsc::unbounded();
 
         let request = Request::resolves_once(operation, move |output| {
+            verif_point!("ctx.resolve_once");
             // If the channel is closed, the associated task has been cancelled
             let _ = output_sender.unbounded_send(output);
         });
@@ -84,6 +85,7 @@ impl<Effect, Event> CommandContext<Effect, Event> {
         let (output_sender, output_receiver) = mpsc::unbounded();
 
         let request = Request::resolves_many_times(operation, move |output| {
+            verif_point!("ctx.resolve_many");
             output_sender.unbounded_send(output).map_err(|_| ())?;
 
             // TODO: revisit the error handling in here
